@@ -22,6 +22,7 @@ DIMS = dict(
     M=[1, 2],
     alg=[False, True],
     horizon=["fixed", "Tfree"],
+    state=["vec2", "mat22"],
 )
 
 
@@ -31,14 +32,15 @@ def finish(a):
     sx, su, svg, svc, sz, sder, salg, scon = [a.pop(k) for k in ("sx", "su", "svg", "svc", "sz", "sder", "salg", "scon")]
     if a["alg"]:
         a["method"] = "DC"
-    if sx != 1: sc["x"] = [2.0, 0.5] if sx == "elem" else sx
+    mat = a["state"] == "mat22"
+    if sx != 1: sc["x"] = ([2.0, 0.5, 3.0, 4.0] if mat else [2.0, 0.5]) if sx == "elem" else sx
     if su != 1: sc["u"] = su
     if svg != 1: sc["vg"] = svg
     if svc != 1: sc["vc"] = svc
     if sz != 1 and a["alg"]: sc["z"] = sz
-    if sder != 1: sc["der_x"] = [0.5, 4.0] if sder == "elem" else sder
+    if sder != 1: sc["der_x"] = ([0.5, 4.0, 2.0, 0.25] if mat else [0.5, 4.0]) if sder == "elem" else sder
     if salg != 1 and a["alg"]: sc["alg"] = salg
-    d = P.case(vg=True, vc="control", state="vec2", **a)
+    d = P.case(vg=True, vc="control", **a)
     d["scales"] = sc
     d["cons"] = [P.con("bc0", scale=scon), P.con("x_le", scale=scon), P.con("xu_between", scale=scon), P.con("x_vec_ge", scale=scon), P.con("x_vec_mixed", scale=scon), P.con("x_vec_mixed_lb", scale=scon), P.con("vc_ge")]
     # scaled constraints on the finer grids (every call site that forwards scale=)
@@ -46,7 +48,7 @@ def finish(a):
     if a["method"] == "DC":
         d["cons"].append(P.con("xu_between", grid="integrator_roots", scale=scon))
     d["obj"] = ["mayer_tf", "integral", "vg", "integral_vc"] + (["int_z"] if a["alg"] else [])
-    d["init"] = [["x", "vec", [0.8, 0.8]], ["u", "const", -0.3], ["vg", "const", 0.6], ["vc", "const", 0.45]] + ([["z", "const", 0.7]] if a["alg"] else [])
+    d["init"] = [["x", "const", 0.8] if mat else ["x", "vec", [0.8, 0.8]], ["u", "const", -0.3], ["vg", "const", 0.6], ["vc", "const", 0.45]] + ([["z", "const", 0.7]] if a["alg"] else [])
     return d
 
 
@@ -62,7 +64,7 @@ def cases(tier):
         seen.add(h)
         out.append(dict(d=d, dev=dev))
     # every scale slot (and all slots together) x every method x M x DAE: the sub-product the deviation bound would only reach at k=4
-    slots = [("sx", 3), ("sx", "elem"), ("su", 0.25), ("svg", 3), ("svc", 0.25), ("sz", 3), ("sder", 3), ("sder", "elem"), ("salg", 0.25), ("scon", 3), ("scon", 0.25)]
+    slots = [("sx", 3), ("sx", "elem"), ("mat", "sx"), ("mat", "sder"), ("mat", "both"), ("su", 0.25), ("svg", 3), ("svc", 0.25), ("sz", 3), ("sder", 3), ("sder", "elem"), ("salg", 0.25), ("scon", 3), ("scon", 0.25)]
     for meth in DIMS["method"]:
         for M in (1, 2):
             for al in (False, True):
@@ -71,6 +73,11 @@ def cases(tier):
                     a.update(method=meth, M=M, alg=al, N=3 if M == 2 else 2)
                     if sl == "all":
                         a.update(sx="elem", su=0.25, svg=3, svc=0.25, sz=3, sder="elem", salg=0.25, scon=3)
+                    elif sl[0] == "mat":
+                        # matrix-valued state with element-wise scales (column-major element order)
+                        a.update(state="mat22")
+                        if sl[1] in ("sx", "both"): a.update(sx="elem")
+                        if sl[1] in ("sder", "both"): a.update(sder="elem")
                     else:
                         a[sl[0]] = sl[1]
                     d = finish(a)
@@ -78,7 +85,55 @@ def cases(tier):
                     if h in seen: continue
                     seen.add(h)
                     out.append(dict(d=d, dev=["method", "M", "alg", str(sl)]))
+    return out + chain_cases()
+
+
+def chain_cases():
+    out = []
+    for order in (1, 2, 3):
+        for sc in (0.25, 3.0):
+            for meth in ("MS", "SS", "DC"):
+                out.append(dict(kind="chain_scale", order=order, scale=sc, method=meth, N=2, M=2 if meth != "DC" else 1))
     return out
+
+
+def run_chain_scale(case):
+    """control(order=k, scale=s): every member of the chain (the k states and the piecewise-constant top derivative) is
+    scale times its own solver variable"""
+    import rockit, casadi as ca, sys
+    k, sc, meth, N, M = case["order"], case["scale"], case["method"], case["N"], case["M"]
+    tags = ["order=%d" % k, "scale=%g" % sc, "method=%s" % meth, "higher_order_control"]
+    vios = []
+    try:
+        ocp = rockit.Ocp(t0=0.2, T=1.4)
+        x = ocp.state(); c = ocp.control(order=k, scale=sc)
+        ocp.set_der(x, -0.5 * x + c)
+        ocp.subject_to(ocp.at_t0(x) == 0.3)
+        chain = [c]
+        for j in range(k):
+            chain.append(ocp.der(chain[-1]))
+        ocp.add_objective(ocp.integral(x * x + 0.1 * chain[-1] ** 2))
+        ocp.solver("ipopt", {"ipopt.print_level": 0, "print_time": False, "ipopt.sb": "yes"})
+        ocp.method({"SS": rockit.SingleShooting(N=N, M=M), "MS": rockit.MultipleShooting(N=N, M=M), "DC": rockit.DirectCollocation(N=N, M=M, degree=max(k, 2))}[meth])
+        nlp = NL.Nlp(ocp)
+        w = NL.generic(nlp.nx, 0, 0, lo=-0.6, hi=0.9)
+        for j, m_ in enumerate(chain):
+            # states: their value at t0 is a decision variable in every method; the top derivative: every interval
+            e = ocp.sample(m_, grid="control-")[1] if j == k else ocp.at_t0(m_)
+            e = ca.vec(ca.MX(ocp.value(e) if j < k else e))
+            J = np.array(ca.Function("J", [nlp.x, nlp.p], [ca.jacobian(e, nlp.x)])(w, nlp.p0))
+            for r in range(J.shape[0]):
+                nz = J[r][np.abs(J[r]) > 1e-12]
+                if len(nz) != 1 or abs(nz[0] - sc) > 1e-9 * max(1, sc):
+                    vios.append(dict(sig="value:scale:variable", tags=tags, detail="member %d of an order-%d control with scale %g: d(physical)/d(solver variables) = %s, expected one entry equal to the scale" % (j, k, sc, np.round(nz, 6).tolist())))
+                    break
+            if vios: break
+    except Exception as e_:
+        fr = core.rockit_frame(sys.exc_info()[2])
+        if fr is None and not isinstance(e_, (RuntimeError, AssertionError)):
+            raise
+        vios.append(dict(sig="exception:chain_scale:%s" % (fr or type(e_).__name__), tags=tags, detail="%s: %s" % (type(e_).__name__, str(e_)[:200])))
+    return dict(violations=vios, evaluations=k + 1, traces=1, transitions=1, outcome=explore.sha(case), nontrivial=True, sample=case)
 
 
 def scale_of(d, key, n):
@@ -97,7 +152,8 @@ def semantics(case, res, tags):
     q0 = nlp.read(w0, extra=ex)
     # (b) solver variables are the physical ones divided by their scale: every decision coordinate moves
     # the labelled physical entries it owns by exactly the declared scale
-    exp = {"X": scale_of(d, "x", 2), "Xi": scale_of(d, "x", 2), "Xr": scale_of(d, "x", 2), "U": scale_of(d, "u", 1),
+    nx_ = P.nx_of(d)
+    exp = {"X": scale_of(d, "x", nx_), "Xi": scale_of(d, "x", nx_), "Xr": scale_of(d, "x", nx_), "U": scale_of(d, "u", 1),
            "vg": scale_of(d, "vg", 1), "vc": scale_of(d, "vc", 1), "Zr": scale_of(d, "z", 1)}
     owned = set()
     for i in range(nlp.nx):
@@ -141,11 +197,13 @@ def semantics(case, res, tags):
 
 
 def run_case(case):
+    if case.get("kind") == "chain_scale":
+        return run_chain_scale(case)
     return _trans.run_trans(case, OWN, extra_check=semantics)
 
 
 def describe(tier):
     return dict(
-        rule="deviation-bounded enumeration over 8 scale slots (state scalar/element-wise, control, global and per-interval variable, algebraic, set_der, add_alg, constraint) x method/degree/grid/N/M/DAE/horizon; objective equal to the unscaled reference, user-constraint rows and bounds equal reference/scale, dynamics rows equal up to one positive constant per row, every decision coordinate moves its physical read-back by exactly the declared scale, starting point equals the guesses in physical units",
+        rule="(controls of order 1..3 with a scale x method: every chain member is scale times its own solver variable) (matrix-valued state with element-wise state / derivative scales; scaled constraints on the integrator and collocation-point grids) deviation-bounded enumeration over 8 scale slots (state scalar/element-wise, control, global and per-interval variable, algebraic, set_der, add_alg, constraint) x method/degree/grid/N/M/DAE/horizon; objective equal to the unscaled reference, user-constraint rows and bounds equal reference/scale, dynamics rows equal up to one positive constant per row, every decision coordinate moves its physical read-back by exactly the declared scale, starting point equals the guesses in physical units",
         bound="k<=%d deviations" % (4 if tier == "thorough" else 3),
-        assumptions=["CasADi Function evaluation and Opti bookkeeping are trusted", "generic-point alphabet", "internal (dynamics) rows may carry any positive per-row constant"])
+        assumptions=["CasADi Function evaluation and Opti bookkeeping are trusted", "generic-point alphabet", "gap / continuity / algebraic rows may carry any positive per-row constant; collocation residuals must carry exactly 1/scale_der"])
